@@ -8,6 +8,11 @@ sys.path.insert(0, os.path.dirname(os.path.abspath(__file__)))
 import lib
 
 
+# checks that are re-run with deeper loop unrolling / on the no-default-features build in the thorough tier
+DEEP_CHECKS = {"C02", "C05", "C06", "C09", "C10", "C14", "C17", "C18"}
+NODEFAULT_CHECKS = {"C02", "C09", "C10", "C17", "C18"}
+
+
 def main():
     if len(sys.argv) < 2:
         print(__doc__)
@@ -22,8 +27,30 @@ def main():
         print("no rule module for", pid)
         return 2
     chk = lib.Check(pid, tier)
+    # thorough tier: the template-based checks run a second time with one more loop unrolling everywhere, and the checks whose
+    # rules do not depend on the feature set run once more on `--no-default-features` (the other cfg!() arms of or / and / TEST /
+    # the ternary fold / negative indexing)
+    passes = [("default", False)]
+    if tier == "thorough":
+        if pid in DEEP_CHECKS:
+            passes.append(("default", True))
+        if pid in NODEFAULT_CHECKS:
+            passes.append(("nodefault", False))
     try:
-        return mod.run(chk, tier)
+        if len(passes) == 1:
+            return mod.run(chk, tier)
+        chk.defer = True
+        for cfg, deep in passes:
+            os.environ["VERIF_CONFIG"] = cfg
+            os.environ["VERIF_DEEP"] = "1" if deep else "0"
+            for m in ("ctemplates", "tplrules", "semtables"):
+                if m in sys.modules:
+                    importlib.reload(sys.modules[m])
+            chk.prefix = "" if (cfg, deep) == ("default", False) else "[%s%s] " % ("no-default-features" if cfg == "nodefault" else "default", ", deep" if deep else "")
+            chk.passes.append({"config": cfg, "deep_unrolling": deep})
+            mod.run(chk, tier)
+        chk.defer = False
+        return chk.finalize()
     except lib.MissingAnchor as e:
         # an anchor the rules are written against no longer exists: fail closed, named
         chk.bad("anchor", "missing", "anchor not found: %s" % e)
